@@ -83,3 +83,32 @@ Proof.
   intros H. induction l as [|x r IH]; cbn; [reflexivity|]. rewrite H. cbn.
   destruct (p x); cbn; [reflexivity|exact IH].
 Qed.
+
+Lemma comp_map_res {A} (f : val -> R (option val)) (h : A -> val) (g : A -> res Z) (k : Z -> val) e l :
+  (forall x, f (h x) = match g x with Ok z => Val (Some (k z)) | Err => Exc e end) ->
+  comp_map f (map h l) = match map_res g l with Ok zs => Val (map k zs) | Err => Exc e end.
+Proof.
+  intros H. induction l as [|x r IH]; cbn; [reflexivity|]. rewrite H.
+  destruct (g x); cbn; [|reflexivity]. rewrite IH. destruct (map_res g r); reflexivity.
+Qed.
+
+Lemma all_strs_map {A} (f : A -> list Z) l : all_strs (map (fun x => VStr (f x)) l) = Some (map f l).
+Proof. induction l as [|x r IH]; cbn; [reflexivity|]. unfold all_strs in IH. rewrite IH. reflexivity. Qed.
+
+Lemma join_empty_singletons (cs : list Z) :
+  match map (fun c => [c]) cs with [] => [] | h :: t => h ++ List.concat (map (fun x => [] ++ x) t) end = cs.
+Proof.
+  destruct cs as [|c r]; [reflexivity|]. cbn [map app]. f_equal.
+  induction r as [|x r IH]; cbn; [reflexivity|]. f_equal. exact IH.
+Qed.
+
+(* what a model result says about an interpreter result: the value, or a genuine Python exception *)
+Definition genuine (e : exn) : Prop := e <> Unmodelled /\ e <> OutOfFuel.
+Definition agrees (r : R val) (m : res val) : Prop :=
+  match m with Ok v => r = Val v | Err => exists e, r = Exc e /\ genuine e end.
+Lemma join_empty_singletons' (cs : list Z) :
+  match map (fun c => [c]) cs with [] => [] | h :: t => h ++ List.concat (map (fun x : list Z => x) t) end = cs.
+Proof.
+  destruct cs as [|c r]; [reflexivity|]. cbn [map app]. f_equal.
+  induction r as [|x r IH]; cbn; [reflexivity|]. f_equal. exact IH.
+Qed.
